@@ -45,6 +45,7 @@ def _validate(chk, scen, results, label):
                                         monitors=res.get('monitors'), res=res))
     chk.cov['traces_validated_against_impl'] += nval
     chk.cov.setdefault('suites', {})[label] = dict(cases=len(results), validated=nval)
+    chk.add_obligation('correspondence', label, nval == len(results), cases=len(results), validated=nval)
     _recognise_legacy(chk, scen)
     return nval
 
